@@ -63,9 +63,27 @@ def const_names(atoms, free_consts=None):
     return frozenset(out)
 
 
+# the parameter whose argument is the role value, by name (used when a tabled helper was relocated and its parameter list changed)
+ROLE_PARAM = {'chal.api': 'api_id', 'dom.api': 'api_id', 'bchal.api': 'api_id', 'gen.api': 'api_id', 'map.api': 'api_id', 'h2s.dst': 'dst'}
+
+
+def _role_sites(prog):
+    """ROLE_SITES with a hashing helper that was renamed / moved / made a method found again (rf_hash.relocation)"""
+    import rf_hash
+    sites = dict(ROLE_SITES)
+    for old, new in rf_hash.relocation(prog, rf_hash.BBS_TABLE).items():
+        if old in sites:
+            role, ai = sites.pop(old)
+            k = prog.bodies[new].param_index(ROLE_PARAM.get(role, ''))
+            if k is not None:
+                sites[new] = (role, k - 1)
+    return sites
+
+
 def role_table(eng, entry_path):
     res = {}
     where = {}
+    ROLE_SITES = _role_sites(eng.prog)
     for fr in walk(eng, entry_path):
         for bi, t in fr.body.calls():
             tgt = local_target(eng, t)
